@@ -307,6 +307,7 @@ pub fn run(tier: &str) -> i32 {
             upgrade_transparency: false,
             syncing_toggles: false,
             sync_gate: true,
+            gate_toggle: false,
         };
         let e = explore(&m, &Limits::new(3, if quick { 300 } else { 6000 }));
         rep.absorb(
@@ -317,6 +318,31 @@ pub fn run(tier: &str) -> i32 {
                    "oracle": "get_balance refuses iff the highest header announced in a processed reply (block not yet in the tree) is more than 2 above the best height"}),
         );
     }
+    // the flag switched on in the middle of a history: headers announced while it was off count
+    for (theta, p, dev) in if quick { vec![(2u32, 1usize, 1usize)] } else { vec![(2, 1, 3), (2, 2, 2)] } {
+        let m = crate::sched::SchedModel {
+            net: Network::Regtest,
+            theta,
+            pool: crate::sched::Pool::tall(Network::Regtest, p, 6),
+            max_deviations: dev,
+            max_depth: 100,
+            hb_budget: None,
+            prop: "C14",
+            liveness: false,
+            upgrade_transparency: false,
+            syncing_toggles: false,
+            sync_gate: true,
+            gate_toggle: true,
+        };
+        let e = explore(&m, &Limits::new(3, if quick { 300 } else { 6000 }));
+        rep.absorb(
+            &format!("SCHED+gate switched on mid-history theta={} follow_ups={} deviations<={}", theta, p, dev),
+            e,
+            json!({"threshold": theta, "follow_up_pages": p, "max_deviations": dev,
+                   "flag": "disable_api_if_not_fully_synced starts disabled; set_config enables it at any point"}),
+        );
+    }
+    rep.floor("sync_flag_switched_on_mid_history", 20);
     rep.floor("gate_closed_states", 20);
     rep.floor("gate_open_states_with_pending_headers", 20);
     rep.rule = "TREE histories with announced-header events (chains of 1-4 headers on any live block; the first header is that of the block the factory would deliver next, so headers are overtaken by arrivals, left on discarded forks, or reached by the stable height) x the 4 flag combinations; in every state the 7 data endpoints x 3 requested networks and the 3 exempt endpoints are called; plus schedules of the fetch protocol (headers arriving in complete and paginated replies, rejects, upgrades, interleaved heartbeats) with the gate judged in every state".into();
